@@ -142,6 +142,16 @@ def run(facts, R):
         removes = [(i, t) for i, t in lb.calls() if t["callee"]["name"] == "remove" and "HashMap" in t["callee"]["path"]]
         R.check(len(removes) == 1, "deliver-by-key", lb.path, "one pending.remove", "response loop has %d pending.remove calls" % len(removes), lb.span)
         other = [(i, t) for i, t in lb.calls() if "HashMap" in t["callee"]["path"] and t["callee"]["name"] in ("get", "get_mut", "insert", "drain", "clear", "retain", "iter", "values", "iter_mut", "values_mut", "entry")]
+        if other and getattr(lb, "changed", False) and not any(p_.startswith(module + "::fail_all_pending") for p_ in facts.bodies):
+            # fail_all_pending written out in the loop: a drain whose entries only ever receive an Err is no delivery
+            def _fail_all_drain(di):
+                reach = lb.reachable((di,))
+                snds = [(si, st) for si, st in lb.calls() if si in reach and si != di and st["callee"]["name"] == "send" and len(st["args"]) == 2]
+                return bool(snds) and all(ls.op(st["args"][1])[0] == "agg" and ls.op(st["args"][1])[2] == "Err" for _, st in snds)
+            tolerated = [(i, t) for i, t in other if t["callee"]["name"] == "drain" and _fail_all_drain(i)]
+            if tolerated:
+                R.note("%s: the response loop drains the pending map itself (no fail_all_pending helper); every drained sender is given Err" % module)
+            other = [x for x in other if x not in tolerated]
         R.check(not other, "deliver-by-key", lb.path, "no other map access", "the response loop also touches the pending map through %s" % [t["callee"]["name"] for _, t in other], lb.span)
         aggs = [(i, j, s) for i, j, s in lb.assigns() if s["rv"].get("agg") == "adt" and s["rv"]["adt"].endswith("PendingDispatch") and s["rv"]["variant"] == "Matched"]
         direct = []
@@ -252,6 +262,35 @@ def _in_inner_cycle(b, send_bb, read_bb):
     return send_bb in b.reachable(b.succs(send_bb), avoid=[read_bb])
 
 
+def _queue_mapper(facts, path):
+    """the closure that turns an enumerate() item into a queue item: a three-slot record (tuple or struct literal)"""
+    mapper = None
+    for c in facts.children(path):
+        v = Sym(c).local(0)
+        if v[0] == "agg" and len(v[3]) == 3 and (v[1] == "tuple" or (v[1] in facts.adts and facts.adts[v[1]].get("kind") == "struct" and getattr(c, "changed", False))):
+            mapper = (c, v)
+    return mapper
+
+
+def _queue_item_slots(facts, path):
+    """(index slot, path slot, body slot) of the queue item, read off the mapper: the slot fed by the enumerate index (`.0` of the
+    closure's argument), by the request's path (`.1.0`) and by its body (`.1.1`); None if the mapper does not build exactly that"""
+    m = _queue_mapper(facts, path)
+    if m is None:
+        return None
+    got = {}
+    for n, x in m[1][3]:
+        r = render(x)
+        for k, suf in (("i", ".0"), ("p", ".1.0"), ("b", ".1.1")):
+            if r.endswith(suf) and not (k == "i" and r.endswith(".1.0")):
+                got.setdefault(k, []).append(n)
+    if all(len(got.get(k, [])) == 1 for k in "ipb") and len({got["i"][0], got["p"][0], got["b"][0]}) == 3:
+        if m[1][1] == "tuple" and (got["i"][0], got["p"][0], got["b"][0]) != ("0", "1", "2") and not getattr(m[0], "changed", False):
+            return None
+        return (got["i"][0], got["p"][0], got["b"][0])
+    return None
+
+
 def batch_blocking(facts, R):
     path = "client::Client::batch_json_inner"
     b = facts.body(path)
@@ -275,7 +314,8 @@ def batch_blocking(facts, R):
 
         def base_of(e, fld):
             return e[1] if e[0] == "field" and e[2] == fld else None
-        same = base_of(idx, "0") is not None and base_of(idx, "0") == base_of(p_e, "1") == base_of(b_e, "2")
+        slot_names = _queue_item_slots(facts, path) or ("0", "1", "2")
+        same = base_of(idx, slot_names[0]) is not None and base_of(idx, slot_names[0]) == base_of(p_e, slot_names[1]) == base_of(b_e, slot_names[2])
         R.check(same, "index-travels", worker.path, "index, path and body come from one queue item",
                 "slot index %s vs request (%s, %s)" % (render(idx), render(p_e), render(b_e)), st.get("span"), "out[item.0] = call(item.1, item.2)")
         # the stored value is the call's result
@@ -288,17 +328,12 @@ def batch_blocking(facts, R):
                 okv = True
         R.check(okv, "index-travels", worker.path, "slot receives that call's result", "the value stored in out[index] is not Some(result of the call)", st.get("span"))
     # the queue pairs each request with its enumerate() index
-    mapper = None
-    for c in facts.children(path):
-        v = Sym(c).local(0)
-        if v[0] == "agg" and v[1] == "tuple" and len(v[3]) == 3:
-            mapper = (c, v)
+    mapper = _queue_mapper(facts, path)
     if mapper is None:
         R.bad("index-travels", path, "queue-mapper", "closure building (index, path, body) not found", b.span)
     else:
         c, v = mapper
-        t0, t1, t2 = [x for _, x in v[3]]
-        ok = render(t0).endswith(".0") and render(t1).endswith(".1.0") and render(t2).endswith(".1.1")
+        ok = _queue_item_slots(facts, path) is not None
         R.check(ok, "index-travels", c.path, "(index, (path, body)) -> (index, path, body)", "mapper builds %s" % render(v), c.span, render(v))
     bs = Sym(b)
     chain = [t["callee"]["name"] for i, t in b.calls() if t["callee"].get("trait") == "std::iter::Iterator"]
